@@ -66,6 +66,51 @@ theorem resetCovers :
     (∀ f ∈ cacheFieldsUsed, f ≠ "sharedCache" → f ∈ resetCachesAssigns) ∧
     (∀ f ∈ cacheFieldsUsed, f ∈ cacheFields) := by decide
 
+/-! ## the governance-proposal mode is part of the state a rejected proposal leaves unchanged -/
+
+/-- governance-proposal mode of the two state machines -/
+inductive VoteMode where
+  | acceptAll | strict
+  deriving DecidableEq, Repr
+
+/-- where `ValidateProposal` returns: at the stateless check, at a later check, or with a result -/
+inductive Exit where
+  | stateless | later | accepted
+  deriving DecidableEq, Repr
+
+/-- the mode after `ValidateProposal`: it switches to `strict`; the deferred restore runs on every
+return that comes after its registration. `deferDirectly`: the registration directly follows the
+switch (else it sits below the stateless check). -/
+def modeAfterValidate (deferDirectly : Bool) : Exit → VoteMode
+  | .stateless => if deferDirectly then .acceptAll else .strict
+  | _ => .acceptAll
+
+/-- a committed block with a governance transaction the local approve list does not name is executed
+in the mode the last `ValidateProposal` left -/
+def commitAccepts : VoteMode → Bool
+  | .acceptAll => true
+  | .strict => false
+
+open Canopy.Exec in
+/-- the source tree registers the restore directly after the switch (generated fact; Go scenario
+`governance-block-after-rejected-proposal`) -/
+theorem proposal_mode_restore_registered_first : proposalModeRestoredFact = true := by decide
+
+open Canopy.Exec in
+/-- **rejected_proposal_restores_mode.** For the mechanism of the source tree a proposal rejected at
+any stage leaves the governance-proposal mode at accept-all, so a later committed block with a
+governance transaction is executed as +2/3 executed it. -/
+theorem rejected_proposal_restores_mode (e : Exit) :
+    modeAfterValidate proposalModeRestoredFact e = .acceptAll ∧
+    commitAccepts (modeAfterValidate proposalModeRestoredFact e) = true := by
+  rw [proposal_mode_restore_registered_first]
+  cases e <;> exact ⟨rfl, rfl⟩
+
+/-- with the registration below the stateless check the property fails -/
+theorem late_defer_leaves_strict_mode :
+    modeAfterValidate false .stateless = .strict ∧ commitAccepts (modeAfterValidate false .stateless) = false := by
+  decide
+
 /-! ## the mechanism is the specification -/
 
 /-- **mechanism_refines_spec.** `ApplyTransactions` as the source has it, on a coherent state machine:
